@@ -78,6 +78,8 @@ def read_is_benign(idx, eff, reach, depth=0):
     while q is not None and not isinstance(q, ast.stmt):
         if isinstance(q, ast.FormattedValue):
             return True, "builds a generated name"
+        if isinstance(q, ast.Call) and ((isinstance(q.func, ast.Name) and q.func.id in ("str", "repr", "hex")) or (isinstance(q.func, ast.Attribute) and q.func.attr == "format")):
+            return True, "builds a generated name"  # str(<counter>) / "...{}".format(<counter>): the value only ends up in text
         q = pm.get(q)
     # (b) own update
     stmt = n
